@@ -46,7 +46,13 @@ func readTlvStream(
 				break
 			}
 
+			if len > defn.MaxNDNPacketSize {
+				return errors.New("received TLV block larger than the maximum packet size")
+			}
 			tlvSize := typ.EncodingLength() + len.EncodingLength() + int(len)
+			if tlvSize > defn.MaxNDNPacketSize {
+				return errors.New("received TLV block larger than the maximum packet size")
+			}
 
 			if recvOff-tlvOff >= tlvSize {
 				// Packet was successfully received, send up to link service
